@@ -230,6 +230,12 @@ func (u *Unit) evalPred(pr *Pred, f *types.Func, args []Val, st *State) Val {
 	sig := f.Type().(*types.Signature)
 	rt := sig.Results().At(0).Type()
 	srt := u.reg.sortOf(rt)
+	if mt, ok := rt.Underlying().(*types.Map); ok {
+		if b, ok := mt.Elem().Underlying().(*types.Basic); ok && b.Kind() == types.Bool {
+			// map[K]bool results of ghost functions are mathematical sets
+			srt = "(Array " + u.reg.sortOf(mt.Key()) + " Bool)"
+		}
+	}
 	if pr.Ghost || u.specDepth > 3 {
 		// uninterpreted mathematical function of its arguments
 		name := "ghost_" + sanitize(pr.Pkg+"."+pr.Name)
